@@ -55,7 +55,7 @@ func signWith(kp *tlsgen.CertKeyPair, h *comm.Handshake) {
 }
 
 func unitC16(e common.Env, p *common.Part) {
-	p.Rule = "real listeners on 127.0.0.1 with identities registered in two domains; hostile connections interleaved with honest ones; field-level cases through the library's own client with a hostile AuthFunc (domain: other registered / unregistered / empty / boundary shifted into the identity / every registered identity, one of them registered without a domain, claiming every domain with its own valid signature; binding: zero / random / truncated / recorded on another connection, also with a signed creation time 31 s / 1 h in the past, at or before 1970, 1 h ahead; identity: unregistered, another node's certificate, registered identities of several PEM blocks signed with the first / the last certificate's key, PEM with leading garbage, non-PEM, RSA, Ed25519, P-384; signature: absent / random / by another registered key / over another binding / garbled / computed from the public key alone for an empty digest, with the claimed domain cut inside a multi-byte character of a registered one), encoding-level cases through a raw TLS client (every truncation length of the encoded handshake [every 4th in quick], length-prefix lies, trailing bytes, whole-handshake replay); every connection then sends a frame with a unique marker; oracle: marker <-> connection <-> entitled identity table, judged after a fence of honest markers and a grace period; distinct key = (field, mutation, identity); non-trivial when the handshake differs from a valid one for that connection"
+	p.Rule = "real listeners on 127.0.0.1 with identities registered in two domains; hostile connections interleaved with honest ones; field-level cases through the library's own client with a hostile AuthFunc (domain: other registered / unregistered / empty / boundary shifted into the identity / every registered identity, one of them registered without a domain, claiming every domain with its own valid signature; binding: zero / random / truncated / recorded on another connection, also with a signed creation time 31 s / 1 h in the past, at or before 1970, 1 h ahead; identity: unregistered, another node's certificate, registered identities of several PEM blocks signed with the first / the last certificate's key, PEM with leading garbage, non-PEM, RSA, Ed25519, P-384; signature: absent / random / by another registered key / over another binding / garbled / computed from the public key alone for an empty digest, with the claimed domain cut inside a multi-byte character of a registered one), encoding-level cases through a raw TLS client (every truncation length of the encoded handshake [every 4th in quick], length-prefix lies, trailing bytes, whole-handshake replay); every connection then sends a frame with a unique marker; oracle: marker <-> connection <-> entitled identity table, judged after a fence of honest markers and a grace period; plus large messages of a node that the application holds while other connections (one sending 65535 junk bytes as its handshake, one authenticated and sending 1 MiB messages) are read: they must still carry that node's bytes; distinct key = (field, mutation, identity); non-trivial when the handshake differs from a valid one for that connection"
 	p.Assumptions = append(p.Assumptions, "timestamp staleness is not in the property's list and is not judged; 'no attributed message' is bounded by a fence (honest markers sent afterwards have arrived) plus a grace period, so a slow machine can only cause a missed detection, never an alarm")
 	if !e.Mine(0) {
 		return
@@ -533,6 +533,65 @@ func unitC16(e common.Env, p *common.Part) {
 	}
 	if !selfCheckOK {
 		p.Inconcl("the raw client's unmodified handshake was not accepted: encoding-level cases have no power in this build")
+	}
+	// what was attributed stays what it was: large messages of node 2 (64 KiB .. 2.5 MiB, in non-ascending order of size) are received and HELD by the
+	// application while other connections - one that never proves any identity and sends 65535 junk bytes as its "handshake", and
+	// another authenticated node sending large messages - are read by the same service. Afterwards the held messages still carry
+	// node 2's bytes.
+	{
+		h2 := env.client(1, "dom", honestAuth(n2.ident, "dom"))
+		var want [][]byte
+		for k, size := range []int{5 << 19, 1<<20 + 4096, 64 << 10, 1<<20 + 17, 3 << 19, 1 << 20} { // not ascending: a later one fits an earlier one's buffer
+			b := bytes.Repeat([]byte{0x5a}, size)
+			copy(b, []byte(fmt.Sprintf("HELD|node2|%d|", k)))
+			want = append(want, b)
+			h2.Send(1, topic, b, 1)
+		}
+		find := func() []comm.InMsg {
+			var out []comm.InMsg
+			for _, m := range srv.received() {
+				if bytes.HasPrefix(m.Data, []byte("HELD|node2|")) && len(m.Data) >= 64<<10 {
+					out = append(out, m)
+				}
+			}
+			return out
+		}
+		if waitFor(20*time.Second, func() bool { return len(find()) >= len(want) }) {
+			held := find() // the application keeps these
+			if c, _, err := env.rawDial(srv.addr); err == nil {
+				junk := append([]byte{0xff, 0xff}, bytes.Repeat([]byte{0xee}, 65535)...)
+				c.Write(junk)
+				time.Sleep(20 * time.Millisecond)
+				c.Close()
+			}
+			h5 := env.client(1, "dom", honestAuth(n5.ident, "dom"))
+			before := len(srv.received())
+			for k := 0; k < 4; k++ {
+				h5.Send(1, topic, bytes.Repeat([]byte{0xdd}, 1<<20+1000*(4-k)), 1)
+			}
+			waitFor(20*time.Second, func() bool { return len(srv.received()) >= before+4 })
+			time.Sleep(20 * time.Millisecond)
+			for _, m := range held {
+				ok := m.From == 2
+				match := false
+				for _, w := range want {
+					if bytes.Equal(m.Data, w) {
+						match = true
+					}
+				}
+				p.Count("held_messages_rechecked", 1)
+				if !ok || !match {
+					off := 0
+					for off < len(m.Data) && (off < 16 || m.Data[off] == 0x5a) {
+						off++
+					}
+					viol("attributed-content-overwritten", fmt.Sprintf("a %d-byte message that was attributed to node 2 and is held by the application no longer carries node 2's bytes after other connections were read (first foreign byte 0x%02x at offset %d)", len(m.Data), m.Data[min(off, len(m.Data)-1)], off), nil)
+					break
+				}
+			}
+		} else {
+			p.Inconcl("the large messages of node 2 did not arrive")
+		}
 	}
 	for i, s := range sents {
 		if i%13 == 0 {
